@@ -280,19 +280,71 @@ def al_prefix(A: "Seq[V]", B: "Seq[V]", f: "fn", D: "Seq[E]", k: "int"):
         hint(snoc(D, m - 1))
 
 
-@assumed("nbdime.diffing.snakes.compute_snakes_multilevel", properties=["C01"])
+@contract("nbdime.diffing.snakes.compute_snakes_multilevel", properties=["C01", "C11"])
 def compute_snakes_multilevel(A: "Seq[V]", B: "Seq[V]", compares: "Seq[fn]", rect: "None" = None, level: "None" = None) -> "Seq[T3]":
-    # ASSUMED (checked only at run time by the bounded stand-ins): the multilevel refinement returns runs (i, j, n), n >= 1,
-    # inside the two lists, strictly monotone and non-overlapping.  Which items it aligns is irrelevant to the round trip.
+    # the entry call (whole lists, coarsest predicate): runs (i, j, n), n >= 1, inside the two lists, strictly monotone and
+    # non-overlapping.  Which items the predicates align is irrelevant to the round trip.  Termination (level decreases in the
+    # recursive call) is not verified.
+    requires(len(compares) >= 1)
     ensures(all(result[q][2] >= 1 and 0 <= result[q][0] and result[q][0] + result[q][2] <= len(A) and
                 0 <= result[q][1] and result[q][1] + result[q][2] <= len(B) for q in range(len(result))))
     ensures(all(result[q][0] + result[q][2] <= result[q + 1][0] and result[q][1] + result[q][2] <= result[q + 1][1]
                 for q in range(len(result) - 1)))
+    local(newsnakes="Seq[T3]")
+    with loop(1, index="k"):
+        invariant(level >= 1 and level < len(compares))
+        invariant(rect[0] <= i0 and i0 <= i1 and rect[1] <= j0 and j0 <= j1 and i1 == rect[2] and j1 == rect[3])
+        invariant(implies(k == 0, i0 == rect[0] and j0 == rect[1]))
+        invariant(implies(k > 0 and k <= len(snakes), i0 == snakes[k - 1][0] + snakes[k - 1][2] and j0 == snakes[k - 1][1] + snakes[k - 1][2]))
+        invariant(implies(k == len(snakes) + 1, i0 == i1 and j0 == j1))
+        invariant(all(snakes[q][2] >= 1 and rect[0] <= snakes[q][0] and snakes[q][0] + snakes[q][2] <= rect[2] and
+                      rect[1] <= snakes[q][1] and snakes[q][1] + snakes[q][2] <= rect[3] for q in range(len(snakes))))
+        invariant(all(snakes[q][0] + snakes[q][2] <= snakes[q + 1][0] and snakes[q][1] + snakes[q][2] <= snakes[q + 1][1]
+                      for q in range(len(snakes) - 1)))
+        invariant(len(newsnakes) >= 1)
+        invariant(all(newsnakes[q][2] >= 0 for q in range(len(newsnakes))))
+        invariant(all(newsnakes[q][2] >= 1 for q in range(1, len(newsnakes))))
+        invariant(implies(newsnakes[0][2] == 0, newsnakes[0][0] == 0 and newsnakes[0][1] == 0))
+        invariant(all(implies(newsnakes[q][2] >= 1, rect[0] <= newsnakes[q][0] and rect[1] <= newsnakes[q][1]) for q in range(len(newsnakes))))
+        invariant(all(newsnakes[q][0] + newsnakes[q][2] <= i0 and newsnakes[q][1] + newsnakes[q][2] <= j0 for q in range(len(newsnakes))))
+        invariant(all(newsnakes[q][0] + newsnakes[q][2] <= newsnakes[q + 1][0] and newsnakes[q][1] + newsnakes[q][2] <= newsnakes[q + 1][1]
+                      for q in range(len(newsnakes) - 1)))
+
+
+# the same real function, verified a second time for the recursive call shape (explicit rectangle and level)
+@contract("nbdime.diffing.snakes.compute_snakes_multilevel#rect", properties=["C01", "C11"])
+def compute_snakes_multilevel_rect(A: "Seq[V]", B: "Seq[V]", compares: "Seq[fn]", rect: "Tuple[int,int,int,int]", level: "int") -> "Seq[T3]":
+    requires(0 <= level and level < len(compares))
+    requires(0 <= rect[0] and rect[0] <= rect[2] and rect[2] <= len(A) and 0 <= rect[1] and rect[1] <= rect[3] and rect[3] <= len(B))
+    ensures(all(result[q][2] >= 1 and rect[0] <= result[q][0] and result[q][0] + result[q][2] <= rect[2] and
+                rect[1] <= result[q][1] and result[q][1] + result[q][2] <= rect[3] for q in range(len(result))))
+    ensures(all(result[q][0] + result[q][2] <= result[q + 1][0] and result[q][1] + result[q][2] <= result[q + 1][1]
+                for q in range(len(result) - 1)))
+    local(newsnakes="Seq[T3]")
+    with loop(1, index="k"):
+        invariant(level >= 1 and level < len(compares))
+        invariant(rect[0] <= i0 and i0 <= i1 and rect[1] <= j0 and j0 <= j1 and i1 == rect[2] and j1 == rect[3])
+        invariant(implies(k == 0, i0 == rect[0] and j0 == rect[1]))
+        invariant(implies(k > 0 and k <= len(snakes), i0 == snakes[k - 1][0] + snakes[k - 1][2] and j0 == snakes[k - 1][1] + snakes[k - 1][2]))
+        invariant(implies(k == len(snakes) + 1, i0 == i1 and j0 == j1))
+        invariant(all(snakes[q][2] >= 1 and rect[0] <= snakes[q][0] and snakes[q][0] + snakes[q][2] <= rect[2] and
+                      rect[1] <= snakes[q][1] and snakes[q][1] + snakes[q][2] <= rect[3] for q in range(len(snakes))))
+        invariant(all(snakes[q][0] + snakes[q][2] <= snakes[q + 1][0] and snakes[q][1] + snakes[q][2] <= snakes[q + 1][1]
+                      for q in range(len(snakes) - 1)))
+        invariant(len(newsnakes) >= 1)
+        invariant(all(newsnakes[q][2] >= 0 for q in range(len(newsnakes))))
+        invariant(all(newsnakes[q][2] >= 1 for q in range(1, len(newsnakes))))
+        invariant(implies(newsnakes[0][2] == 0, newsnakes[0][0] == 0 and newsnakes[0][1] == 0))
+        invariant(all(implies(newsnakes[q][2] >= 1, rect[0] <= newsnakes[q][0] and rect[1] <= newsnakes[q][1]) for q in range(len(newsnakes))))
+        invariant(all(newsnakes[q][0] + newsnakes[q][2] <= i0 and newsnakes[q][1] + newsnakes[q][2] <= j0 for q in range(len(newsnakes))))
+        invariant(all(newsnakes[q][0] + newsnakes[q][2] <= newsnakes[q + 1][0] and newsnakes[q][1] + newsnakes[q][2] <= newsnakes[q + 1][1]
+                      for q in range(len(newsnakes) - 1)))
 
 
 @contract("nbdime.diffing.generic.diff_sequence_multilevel", properties=["C01", "C11"])
 def diff_sequence_multilevel(a: "Seq[V]", b: "Seq[V]", path: "path", config: "cfg") -> "Seq[E]":
     requires(differs_ok())
+    requires(len(preds_at(path)) >= 1)
     ensures(wf_seq(result, len(a)))
     ensures(apply_seq(a, result) == b)
 
@@ -416,3 +468,45 @@ def compute_diff_from_snakes(a: "Seq[V]", b: "Seq[V]", snakes: "Seq[T3]", path: 
         finally_check(implies(len(cd) > 0, apply_v(aval, cd) == b[j + k]))
         finally_check(implies(len(cd) > 0, pref_eq(rout(a, at_head(di._diff)) + a[rtake(a, at_head(di._diff)):i + k] + [apply_v(aval, cd)], b)))
         finally_check(pref_eq(rout(a, di._diff), b))
+
+
+# ------------------------------------------------------------------ snakes (replaces the formerly assumed shape contract)
+
+@contract("nbdime.diffing.seq_bruteforce.bruteforce_compute_snakes", properties=["C01", "C11"])
+def bruteforce_compute_snakes(A: "Seq[V]", B: "Seq[V]", compare: "fn") -> "Seq[T3]":
+    # runs (i, j, n), n >= 1, inside the two lists, strictly monotone and non-overlapping, every aligned pair compare-true
+    ensures(all(result[q][2] >= 1 and 0 <= result[q][0] and result[q][0] + result[q][2] <= len(A) and
+                0 <= result[q][1] and result[q][1] + result[q][2] <= len(B) for q in range(len(result))))
+    ensures(all(result[q][0] + result[q][2] <= result[q + 1][0] and result[q][1] + result[q][2] <= result[q + 1][1]
+                for q in range(len(result) - 1)))
+    ensures(all(cmp(compare, A[result[q][0] + k], B[result[q][1] + k]) for q in range(len(result)) for k in range(result[q][2])))
+    local(snakes="Seq[T3]")
+    with loop(1, index="r"):
+        invariant(len(snakes) >= 1)
+        invariant(all(snakes[q][2] >= 0 and 0 <= snakes[q][0] and snakes[q][0] + snakes[q][2] <= len(A) and
+                      0 <= snakes[q][1] and snakes[q][1] + snakes[q][2] <= len(B) for q in range(len(snakes))))
+        invariant(all(snakes[q][2] >= 1 for q in range(1, len(snakes))))
+        invariant(implies(snakes[0][2] == 0, snakes[0][0] == 0 and snakes[0][1] == 0))
+        invariant(all(snakes[q][0] + snakes[q][2] <= snakes[q + 1][0] and snakes[q][1] + snakes[q][2] <= snakes[q + 1][1]
+                      for q in range(len(snakes) - 1)))
+        invariant(implies(r == 0, len(snakes) == 1 and snakes[0][2] == 0))
+        invariant(implies(r > 0, snakes[len(snakes) - 1][0] + snakes[len(snakes) - 1][2] <= A_indices[r - 1] + 1 and
+                                 snakes[len(snakes) - 1][1] + snakes[len(snakes) - 1][2] <= B_indices[r - 1] + 1))
+        invariant(all(cmp(compare, A[snakes[q][0] + k], B[snakes[q][1] + k]) for q in range(len(snakes)) for k in range(snakes[q][2])))
+
+
+@contract("nbdime.diffing.snakes.compute_snakes", properties=["C01", "C11"])
+def compute_snakes(A: "Seq[V]", B: "Seq[V]", compare: "fn", rect: "Tuple[int,int,int,int]") -> "Seq[T3]":
+    requires(0 <= rect[0] and rect[0] <= rect[2] and rect[2] <= len(A) and 0 <= rect[1] and rect[1] <= rect[3] and rect[3] <= len(B))
+    ensures(all(result[q][2] >= 1 and rect[0] <= result[q][0] and result[q][0] + result[q][2] <= rect[2] and
+                rect[1] <= result[q][1] and result[q][1] + result[q][2] <= rect[3] for q in range(len(result))))
+    ensures(all(result[q][0] + result[q][2] <= result[q + 1][0] and result[q][1] + result[q][2] <= result[q + 1][1]
+                for q in range(len(result) - 1)))
+    ensures(all(cmp(compare, A[result[q][0] + k], B[result[q][1] + k]) for q in range(len(result)) for k in range(result[q][2])))
+    with after_assign("snakes", 1):
+        let(S0=snakes)
+    with after_assign("snakes", 2):
+        check(len(snakes) == len(S0) and all(snakes[q][0] == S0[q][0] + i0 and snakes[q][1] == S0[q][1] + j0 and snakes[q][2] == S0[q][2]
+                                            for q in range(len(snakes))))
+        check(all(A[i0:i1][S0[q][0] + k] == A[snakes[q][0] + k] and B[j0:j1][S0[q][1] + k] == B[snakes[q][1] + k]
+                  for q in range(len(snakes)) for k in range(snakes[q][2])))
